@@ -63,12 +63,12 @@ var clauseKinds = map[string]bool{
 	"import": true, "maypanic": true, "opaque": true, "holds": true, "locked": true,
 	"reads": true, "fresh": true, "atcall": true, "unreachable": true, "emits": true,
 	"returns": true, "use": true, "axiom": true, "induction": true, "params": true,
-	"terminates": true, "field": true, "sig": true, "group": true, "lockkey": true, "noreturn": true, "effect": true, "noframe": true,
+	"terminates": true, "field": true, "sig": true, "group": true, "noalloc": true, "deadcode": true, "replay": true, "witness": true, "lockkey": true, "noreturn": true, "effect": true, "noframe": true,
 }
 
 var blockKinds = map[string]bool{"func": true, "spec": true, "monitor": true, "extern": true, "lemma": true, "type": true, "actor": true}
 
-var labelRe = regexp.MustCompile(`^\[([A-Za-z0-9_.-]+)\]\s*`)
+var labelRe = regexp.MustCompile(`^\[([A-Za-z0-9_.:-]+)\]\s*`)
 
 // ParseContractFile reads //@ lines of one file.
 func ParseContractFile(path, pkg string, extern bool) ([]*Block, error) {
@@ -107,6 +107,12 @@ func ParseContractText(text, path, pkg string, extern bool) ([]*Block, error) {
 		if k := strings.IndexAny(body, " \t"); k >= 0 {
 			word = body[:k]
 			rest = strings.TrimSpace(body[k:])
+		}
+		if word == "use" {
+			blocks = append(blocks, &Block{Kind: "use", Pkg: pkg, Header: rest, Loops: map[int]*LoopSpec{}, Flags: map[string]string{}, File: path, Line: i + 1, Extern: extern})
+			cur = nil
+			last = nil
+			continue
 		}
 		if blockKinds[word] {
 			cur = &Block{Kind: word, Pkg: pkg, Loops: map[int]*LoopSpec{}, Flags: map[string]string{}, File: path, Line: i + 1, Extern: extern}
@@ -170,7 +176,7 @@ func ParseContractText(text, path, pkg string, extern bool) ([]*Block, error) {
 				cur.Props = append(cur.Props, strings.Fields(rest)...)
 				last = nil
 				continue
-			case "nopanic", "pure", "inline", "trusted", "noinline", "opaque", "maypanic", "terminates", "noframe", "group", "lockkey", "noreturn", "ghost":
+			case "nopanic", "pure", "inline", "trusted", "noinline", "opaque", "maypanic", "terminates", "noframe", "group", "lockkey", "noreturn", "ghost", "noalloc", "deadcode":
 				cur.Flags[word] = rest
 				last = nil
 				continue
